@@ -1087,6 +1087,9 @@ func RunCursor(p *Prog, pkgpath string) *CursorResult {
 	ms := p.SSA.MethodSets.MethodSet(types.NewPointer(a.cursorT))
 	for i := 0; i < ms.Len(); i++ {
 		f := p.SSA.MethodValue(ms.At(i))
+		if p.consumed[f] {
+			continue // a higher-order helper whose call sites were all resolved by the normalisation pass
+		}
 		switch primitiveShape(f, a) {
 		case "NEXT":
 			a.next = f
